@@ -33,6 +33,9 @@ class Tracer(object):
         self.events = []              # (thread name, kind, arg)
         self.gate = None              # optional scheduler: callable(thread name, index) blocking until it is this event's turn
         self.counts = {}
+        self.phase = "build"
+        self.nlocks = 0
+        self.locks = []
 
     def ev(self, kind, arg=None):
         t = threading.current_thread().name
@@ -42,12 +45,48 @@ class Tracer(object):
             self.gate(t, i)
         self.events.append((t, kind, arg))
 
+    def held_now(self):
+        t = threading.current_thread().name
+        held = set()
+        for (tn, k, a) in self.events:
+            if tn == t and k == "acq":
+                held.add(a)
+            elif tn == t and k == "rel":
+                held.discard(a)
+        return held
+
+    def new_lock(self, real):
+        self.nlocks += 1
+        l = TLock("lock#%d" % self.nlocks, self, real)
+        self.locks.append(l)
+        return l
+
+
+class FakeThreading(object):
+    """stands for the `threading` module inside yowsup.layers: every Lock() the layers create (at construction or lazily) is traced"""
+
+    def __init__(self, tr, real):
+        self._tr, self._real = tr, real
+
+    def Lock(self):
+        return self._tr.new_lock(self._real)
+
+    def __getattr__(self, n):
+        return getattr(threading, n)
+
 
 class TLock(object):
     def __init__(self, name, tr, real):
         self.name, self.tr, self.real = name, tr, real
         self.l = threading.Lock() if real else None
         self.held = False
+        self.private = False
+        if tr.phase == "send":
+            # a lock created WHILE a stanza is being sent (lazy creation): if no pre-existing lock is held at that moment two
+            # threads racing on first use each get their own object -> such a lock excludes nobody (worst case, see encode())
+            shared_held = [h for h in tr.held_now() if h not in set(l.name for l in tr.locks if l.private)]
+            self.private = not shared_held
+            tr.ev("create", name)
 
     def acquire(self, *a, **k):
         self.tr.ev("acq", self.name)
@@ -97,11 +136,14 @@ def build(tr, real_locks):
             tr.ev("write", len(d))
             self.out.append(bytes(d))
 
+    import yowsup.layers as LM
+    LM.threading = FakeThreading(tr, real_locks)
     layers = YowStackBuilder.getDefaultLayers() + (YowInterfaceLayer,)
     st = YowStack(layers, reversed=False)
     insts = [st.getLayer(i) for i in range(len(layers))]
     for i, l in enumerate(insts):
-        l.lock = TLock("%d:%s" % (i, type(l).__name__), tr, real_locks)
+        if isinstance(getattr(l, "lock", None), TLock):
+            l.lock.name = "%d:%s" % (i, type(l).__name__)
     net, seg, noise = insts[0], insts[1], insts[2]
     disp = Disp()
     net._dispatcher, net.connected, net.state = disp, True, net.STATE_CONNECTED
@@ -135,6 +177,7 @@ def build(tr, real_locks):
             if hasattr(s, "_manager"):
                 s._manager = mgr
     iq = [s for s in insts[-2].sublayers if type(s).__name__ == "YowIqProtocolLayer"][0]
+    tr.phase = "send"
     return st, insts, disp, iq, key
 
 
@@ -152,14 +195,18 @@ def do_send(kind, insts, iq, variant=0):
 
 
 def extract(kind):
-    """trace of one send of this kind: list of (event kind, arg) -- extracted twice with different payloads"""
-    traces = []
+    """traces of the FIRST and of a LATER send of this kind on a fresh stack: lists of (event kind, arg); extracted twice with
+    different payloads (data independence).  Returns (first, later, independent, names of private locks)"""
+    runs = []
     for variant in (0, 7):
         tr = Tracer()
         st, insts, disp, iq, key = build(tr, False)
         do_send(kind, insts, iq, variant)
-        traces.append([(k, a if k != "write" else ("hdr" if a == 3 else "payload")) for (_t, k, a) in tr.events])
-    return traces[0], traces[0] == traces[1]
+        n1 = len(tr.events)
+        do_send(kind, insts, iq, variant + 1)
+        norm = lambda evs: [(k, a if k != "write" else ("hdr" if a == 3 else "payload")) for (_t, k, a) in evs]
+        runs.append((norm(tr.events[:n1]), norm(tr.events[n1:]), set(l.name for l in tr.locks if l.private)))
+    return runs[0][0], runs[0][1], runs[0][:2] == runs[1][:2], runs[0][2]
 
 
 # ---- encoding -------------------------------------------------------------------------------------------------------------------
@@ -199,6 +246,17 @@ def encode(ctx, threads):
                 if t0 == t1:
                     continue          # same thread: ordered by program order
                 cons.append(z3.Or(r0 < a1, r1 < a0))
+    # lazily created private locks: the race is only real if every creator passed its "not yet created" test before another
+    # creator's lock became visible, i.e. the step BEFORE each creation precedes every other creation of the same lock
+    creates = {}
+    for (ti, oi, ei, k, a) in evs:
+        if k == "create" and "@T" in str(a):
+            creates.setdefault(str(a).split("@T")[0], []).append((ti, oi, ei))
+    for base, cl in creates.items():
+        for (ti, oi, ei) in cl:
+            for (tj, oj, ej) in cl:
+                if ti != tj and ei > 0:
+                    cons.append(T[(ti, oi, ei - 1)] < T[(tj, oj, ej)])
     ops = [(ti, oi) for ti, (name, tops) in enumerate(threads) for oi in range(len(tops))]
 
     def ev_of(ti, oi, kind, nth=0, arg=None):
@@ -251,12 +309,17 @@ def encode(ctx, threads):
 
 
 def _threads(kinds, n_ops):
+    """every thread's first stanza may be the first use of the stack (first-send trace), the following ones use the later-send trace;
+    locks created lazily without holding a pre-existing lock are private to the creating thread"""
     out = []
     ok = True
     for i, k in enumerate(kinds):
-        trace, indep = extract(k)
+        first, later, indep, private = extract(k)
         ok = ok and indep
-        out.append(("T%d:%s" % (i, k), [trace] * n_ops))
+
+        def ren(trace, i=i, private=private):
+            return [(kk, ("%s@T%d" % (a, i)) if (kk in ("acq", "rel", "create") and a in private) else a) for (kk, a) in trace]
+        out.append(("T%d:%s" % (i, k), [ren(first)] + [ren(later)] * (n_ops - 1)))
     return out, ok
 
 
@@ -267,6 +330,7 @@ def h_schedules(ctx, kinds, n_ops):
         cons, bad, evs, T = encode(ctx, threads)
         for c in cons:
             ctx.assume(c)
+        ctx.note("later send: %s" % (threads[0][1][-1],))
         shape_ok = all(sum(1 for e in t[1][0] if e[0] == "write") == 2 and sum(1 for e in t[1][0] if e[0] == "nonce_write") == 1 and
                        sum(1 for e in t[1][0] if e[0] == "q_put") == 1 for t in threads)
         return [("extracted traces are data independent", indep), ("each send = 1 encryption, 1 queue hand-over, header+payload write", shape_ok),
@@ -291,13 +355,20 @@ def replay_schedule(ctx, kinds, n_ops):
     cond = threading.Condition()
     pos = [0]
     dead = [False]
+    waiting = [0]
+    live = [len(kinds)]
 
     def gate(tname, i):
         with cond:
-            while not dead[0] and not (pos[0] < len(order) and order[pos[0]][1] == tname and order[pos[0]][2] == i):
+            waiting[0] += 1
+            cond.notify_all()
+            # an event is released only when it is its turn AND every other live sender is parked at a gate (quiescence): what runs
+            # between two gates of one thread is then never concurrent with another thread
+            while not dead[0] and not (pos[0] < len(order) and order[pos[0]][1] == tname and order[pos[0]][2] == i and waiting[0] >= live[0]):
                 if not cond.wait(timeout=5):
                     dead[0] = True       # schedule not realisable (e.g. blocked on a lock): fall through
                     cond.notify_all()
+            waiting[0] -= 1
             pos[0] += 1
             cond.notify_all()
     tr.gate = gate
@@ -309,6 +380,10 @@ def replay_schedule(ctx, kinds, n_ops):
                 do_send(kind, insts, iq, variant + j)
         except Exception as e:
             errs.append(e)
+        finally:
+            with cond:
+                live[0] -= 1
+                cond.notify_all()
     ths = [threading.Thread(target=run, name="T%d:%s" % (i, k), args=(k, n_ops, 10 * i)) for i, k in enumerate(kinds)]
     for t in ths:
         t.daemon = True
